@@ -674,6 +674,8 @@ class Archive(object):
             items = self._leaf_nodes.iteritems() if PY2 else self._leaf_nodes.items()
                             
             for uid_i,fl_i in items:
+                # A live node of this session may be using `uid_i` already
+                live = uid_i in context._context._registered_leaf_nodes
                 l = context._context.new_leaf(
                     uid_i, 
                     fl_i.label, 
@@ -684,7 +686,13 @@ class Archive(object):
                 if hasattr(fl_i,'complex'):
                     l.complex = fl_i.complex 
                 if hasattr(fl_i,'correlation'):
-                    l.correlation = dict( fl_i.correlation )
+                    if live and hasattr(l,'correlation'):
+                        # Keep what the session knows about a live node
+                        # and add only the archived entries it lacks.
+                        for uid_j,r_j in dict( fl_i.correlation ).items():
+                            l.correlation.setdefault(uid_j,r_j)
+                    else:
+                        l.correlation = dict( fl_i.correlation )
                 if hasattr(fl_i,'ensemble'):
                     l.ensemble = set( fl_i.ensemble )
                     
